@@ -89,7 +89,7 @@ pub fn run(ctx: &Ctx, replay: Option<&J>) -> CheckResult {
         return CheckResult { evidence: ev, rule, assumptions, violations: vs };
     }
     let corp = corpus(ctx.seed);
-    let cases = ctx.n(100_000, 3_000_000);
+    let cases = ctx.n(600_000, 15_000_000);
     let (mut ev, mut vs) = pt_run(
         ctx,
         "c20",
@@ -139,7 +139,7 @@ pub fn run(ctx: &Ctx, replay: Option<&J>) -> CheckResult {
     }
     // decoded frames
     let golden_all = crate::pool::golden_frames();
-    let per_type = ctx.n(600, 20_000);
+    let per_type = ctx.n(4000, 100_000);
     let parts: Vec<(Evidence, Vec<Violation>)> = MSG_TABLE
         .par_iter()
         .map(|row| {
